@@ -3,6 +3,7 @@
    Hand-written (tools/cpp2v.py has no `switch`, no std::swap and maps double to Q, which cannot carry the
    sign bit of -0.0); tied to the code by the exhaustive correspondence of checks/c18.py.
    Source lines refer to /repo/cola/libdialect at the time of writing. *)
+From Coq Require Import QArith.Qround.
 From Adapt Require Import Num.Qaux Num.SignedZero.
 Local Open Scope Q_scope.
 
@@ -345,3 +346,80 @@ Definition sep_equivb (extra : Q) (sp : SepPair) (extra' : Q) (sp' : SepPair) : 
 Definition coincideb (sp : SepPair) : bool :=
   gt_eqb (xgt sp) CENTRE && st_eqb (xst sp) EQ && sg_is0 (xgap sp) &&
   gt_eqb (ygt sp) CENTRE && st_eqb (yst sp) EQ && sg_is0 (ygap sp).
+
+(* ================================================================================================================
+   The remaining public mutators of SepMatrix (constraints.h:187-330, constraints.cpp:473-518, 576-790, 915-931).
+   `refresh` as above.  Node positions are read from the graph (Graph::getNode(id)->getCentre()): a placement
+   `centres` = id -> (x, y).  A binary64 difference of two of our inputs is exact and x - x = +0.0: sg_of_Q. *)
+Definition centres := nat -> Q * Q.
+
+(* SepMatrix::addFixedRelativeSep(id1, id2), constraints.cpp:495-503: freeze the PRESENT offset v - u *)
+Definition m_addFixedRelativeSepPos (refresh : bool) (id1 id2 : nat) (pos : centres) (m : smatrix) : option smatrix :=
+  let cu := pos id1 in
+  let cv := pos id2 in
+  m_addFixedRelativeSep refresh id1 id2 (sg_of_Q (fst cv - fst cu)) (sg_of_Q (snd cv - snd cu)) m.
+
+(* (SepDir) dir, constraints.h:215: the enumerators EAST..NORTH have the same values in both enums *)
+Definition card_sepdir (c : CardinalDir) : SepDir :=
+  match c with CEAST => EAST | CSOUTH => SOUTH | CWEST => WEST | CNORTH => NORTH end.
+(* SepMatrix::setCardinalOP, constraints.h:214-216 *)
+Definition m_setCardinalOP (refresh : bool) (id1 id2 : nat) (c : CardinalDir) (m : smatrix) : option smatrix :=
+  m_addSep refresh id1 id2 BDRY (card_sepdir c) INEQ sg_pz m.
+(* SepMatrix::hAlign / vAlign, constraints.h:232-235; alignByEquatedCoord constraints.cpp:505-508 *)
+Definition m_hAlign (refresh : bool) (id1 id2 : nat) (m : smatrix) : option smatrix :=
+  m_addSep refresh id1 id2 CENTRE DOWN EQ sg_pz m.
+Definition m_vAlign (refresh : bool) (id1 id2 : nat) (m : smatrix) : option smatrix :=
+  m_addSep refresh id1 id2 CENTRE RIGHT EQ sg_pz m.
+(* eq_y = false: vpsc::XDIM (x equated = vertical alignment), true: YDIM *)
+Definition m_alignByEquatedCoord (refresh : bool) (id1 id2 : nat) (eq_y : bool) (m : smatrix) : option smatrix :=
+  if eq_y then m_hAlign refresh id1 id2 m else m_vAlign refresh id1 id2 m.
+
+(* SepMatrix::free, constraints.cpp:915-931 *)
+Definition m_free (id1 id2 : nat) (m : smatrix) : smatrix :=
+  if Nat.eqb id1 id2 then m else
+  let lo := Nat.min id1 id2 in
+  let hi := Nat.max id1 id2 in
+  filter (fun e => negb (Nat.eqb (en_lo e) lo && Nat.eqb (en_hi e) hi)) m.
+(* SepMatrix::clear *)
+Definition m_clear (m : smatrix) : smatrix := [].
+
+Definition mem_id (i : nat) (ids : list nat) : bool := existsb (Nat.eqb i) ids.
+(* transformClosedSubset: both nodes in the set; transformOpenSubset: at least one (constraints.cpp:586-707) *)
+Definition m_transformClosedSubset (tf : SepTransform) (ids : list nat) (m : smatrix) : smatrix :=
+  map (fun e => if mem_id (en_lo e) ids && mem_id (en_hi e) ids
+                then mkEn (en_lo e) (en_hi e) (transform tf (en_sp e)) (en_flip e) else e) m.
+Definition m_transformOpenSubset (tf : SepTransform) (ids : list nat) (m : smatrix) : smatrix :=
+  map (fun e => if mem_id (en_lo e) ids || mem_id (en_hi e) ids
+                then mkEn (en_lo e) (en_hi e) (transform tf (en_sp e)) (en_flip e) else e) m.
+(* removeNode / removeNodes (constraints.cpp:709-790): every record that mentions one of the nodes goes *)
+Definition m_removeNodes (ids : list nat) (m : smatrix) : smatrix :=
+  filter (fun e => negb (mem_id (en_lo e) ids || mem_id (en_hi e) ids)) m.
+Definition m_removeNode (id : nat) (m : smatrix) : smatrix := m_removeNodes [id] m.
+
+(* setCorrespondingConstraints (constraints.cpp:797-845): the records whose two nodes both belong to the other
+   matrix's graph are set there (the other matrix is empty in the harness) *)
+Definition m_corresponding (ids : list nat) (m : smatrix) : smatrix :=
+  filter (fun e => mem_id (en_lo e) ids && mem_id (en_hi e) ids) m.
+
+(* setSepPair(id1, id2, sp), constraints.cpp:792-795: None = runtime_error "Bad ids for SepPair." *)
+Definition m_setSepPair (id1 id2 : nat) (sp : SepPair) (m : smatrix) : option smatrix :=
+  if Nat.ltb id1 id2 then Some (m_put (mkEn id1 id2 sp false) m) else None.
+
+(* SepPair::roundGapsUpAbs (constraints.cpp:272-275): floor for a set sign bit, ceil otherwise, i.e. the magnitude
+   goes up to the next integer and the sign bit stays (floor(-0.0) = -0.0) *)
+Definition q_ceil (q : Q) : Q := inject_Z (Qceiling q).
+Definition sg_roundUpAbs (g : sgap) : sgap := mkSg (sneg g) (q_ceil (smag g)).
+Definition roundGapsUpAbs (sp : SepPair) : SepPair :=
+  mkSP (xgt sp) (ygt sp) (xst sp) (yst sp) (sg_roundUpAbs (xgap sp)) (sg_roundUpAbs (ygap sp)).
+(* SepMatrix::roundGapsUpward (constraints.cpp:510-517) on (extraBdryGap, matrix) *)
+Definition m_roundGapsUpward (em : Q * smatrix) : Q * smatrix :=
+  (q_ceil (fst em), map (fun e => mkEn (en_lo e) (en_hi e) (roundGapsUpAbs (en_sp e)) (en_flip e)) (snd em)).
+
+(* the placement of a stored record: src = the node of smaller id; sizes from a size map *)
+Definition place_of (pos : centres) (size : nat -> Q * Q) (lo hi : nat) : place :=
+  mkPl (fst (pos lo)) (snd (pos lo)) (fst (pos hi)) (snd (pos hi))
+       (fst (size lo)) (snd (size lo)) (fst (size hi)) (snd (size hi)).
+(* which stored records the present placement satisfies (executable; used on the real matrix via the generated
+   constraints, and on the model) *)
+Definition m_holdsb (extra : Q) (pos : centres) (size : nat -> Q * Q) (m : smatrix) : list (nat * nat * bool) :=
+  map (fun e => (en_lo e, en_hi e, holdsb extra (place_of pos size (en_lo e) (en_hi e)) (en_sp e))) m.
